@@ -64,10 +64,10 @@ DEGREE_GUARDS = {
 }
 
 PROP_GROUPS = {
-    'C01': (['elementary', 'helpers'], ('O3', 'O4', 'O5', 'CTRL', 'RESHAPE')),
-    'C02': (['arith'], ('O3', 'O4', 'O5', 'CTRL', 'RESHAPE')),
-    'C07': (['linalg', 'det'], ('O3', 'O4', 'O5', 'CTRL', 'RESHAPE')),
-    'C08': (['factor'], ('O3', 'O4', 'O5', 'CTRL', 'RESHAPE')),
+    'C01': (['elementary', 'helpers'], ('O3', 'O4', 'O5', 'O7', 'CTRL', 'RESHAPE')),
+    'C02': (['arith'], ('O3', 'O4', 'O5', 'O7', 'CTRL', 'RESHAPE')),
+    'C07': (['linalg', 'det'], ('O3', 'O4', 'O5', 'O7', 'CTRL', 'RESHAPE')),
+    'C08': (['factor'], ('O3', 'O4', 'O5', 'O7', 'CTRL', 'RESHAPE')),
     'C12': (['elementary', 'helpers', 'arith', 'linalg', 'factor', 'maps'], ('O1', 'O2', 'C12.D', 'CTRL')),
     'C13': (['maps'], ('O1', 'O3')),
 }
@@ -177,6 +177,7 @@ def _delegates(m, fi, ka, have, depth=0):
             if k.arg and isinstance(k.value, ast.Name) and k.value.id in ka.dsyms and str(ka.aff_env.get(k.value.id)) == str(_AFF_D):
                 dpar.add(k.arg)
         hka = KernelAnalysis(h, graded_params=graded, extra_dsyms=dpar, model=m)
+        hka.defer_coverage = True       # a helper holds part of the recurrence: its stores are credited to the caller (O7)
         for o in objs:
             hka._decl(o + '.data', 'in')
         if 'out' in graded and 'out' in hka.gvars:
@@ -184,6 +185,38 @@ def _delegates(m, fi, ka, have, depth=0):
         hka.run()
         found.append((h.name, hka))
         found.extend(_delegates(m, h, hka, have | {h.name}, depth + 1))
+        # caller array -> helper parameter
+        amap = {}
+        for i, a in enumerate(c.args):
+            if i < len(params):
+                an = ka._arr_name(a)
+                if an in ka.gvars and params[i] in graded:
+                    amap[an] = params[i]
+                elif isinstance(a, ast.Name) and a.id + '.data' in ka.gvars and params[i] in objs:
+                    amap[a.id + '.data'] = params[i] + '.data'
+        for k in c.keywords:
+            if k.arg:
+                an = ka._arr_name(k.value)
+                if an in ka.gvars and k.arg in graded:
+                    amap[an] = k.arg
+                elif isinstance(k.value, ast.Tuple) and k.arg == 'out':
+                    # out=(y_data, z_data): the helper unpacks `a, b = out`
+                    names_ = []
+                    for st_ in walk_no_nested(h.node):
+                        if isinstance(st_, ast.Assign) and isinstance(st_.value, ast.Name) and st_.value.id == 'out' \
+                                and isinstance(st_.targets[0], (ast.Tuple, ast.List)):
+                            names_ = [e.id if isinstance(e, ast.Name) else None for e in st_.targets[0].elts]
+                    for e_, hn in zip(k.value.elts, names_):
+                        an = ka._arr_name(e_)
+                        if an in ka.gvars and hn:
+                            amap[an] = hn
+        from .grading import cover_sets
+        ka.delegate_cover = getattr(ka, 'delegate_cover', {})
+        for an, hp in amap.items():
+            cs = cover_sets(hka, hp)
+            sub = getattr(hka, 'delegate_cover', {}).get(hp, {})
+            for D_, idx in cs.items():
+                ka.delegate_cover.setdefault(an, {}).setdefault(D_, set()).update(idx | set(sub.get(D_, ())))
     return found
 
 
@@ -191,6 +224,25 @@ ACCUMULATE_BY_CONTRACT = {
     '_amul': 'z += x*y (docstring): the accumulate-multiply used by the pullbacks',
     '_iouter': 'in-place outer-product accumulation',
 }
+COVERAGE_EXEMPT = {
+    # (function, array): (which missing index is accepted: 'first' | 'last', reason)
+    ('_taylor_polynomials_of_ode_solutions', 'v_data'): ('first', 'v_data[0] is the recursion base supplied by the caller (docstring)'),
+    ('_taylor_polynomials_of_ode_solutions', 'v_tilde_data'): ('first', 'copy of v_data: entry 0 is the recursion base'),
+    ('_taylor_polynomials_of_ode_solutions', 's'): ('first', 'work array; s[0] is never read'),
+    ('_taylor_polynomials_of_ode_solutions', 'e_data'): ('last', 'e_data[D-1] is skipped by the justified guard `k < d`: no retained coefficient reads it'),
+}
+
+
+def _coverage_exempt(fi, wit):
+    ex = COVERAGE_EXEMPT.get((fi.name, wit.get('array')))
+    if ex is None:
+        return None
+    gaps = wit.get('gaps') or {wit.get('#D'): wit.get('missing')}
+    for D, miss in gaps.items():
+        if not ((ex[0] == 'first' and miss == [0]) or (ex[0] == 'last' and miss == [int(D) - 1])):
+            wit['#D'], wit['missing'] = D, miss
+            return None
+    return ex[1]
 ZERO_ALLOCS = {'zeros', 'zeros_like', '__zeros__', '__zeros_like__'}
 DIRTY_ALLOCS = {'empty', 'empty_like'}
 
@@ -491,10 +543,13 @@ def analyse_all(ctx):
                 fi = ci.methods.get(n)
                 if fi is None:
                     raise AnalysisError('E2.anchor', ALGO + ':' + n, 'kernel vanished')
-            ka = KernelAnalysis(fi, raw_params=RAW.get(n, ()), model=m).run()
+            ka = KernelAnalysis(fi, raw_params=RAW.get(n, ()), model=m)
+            ka.defer_coverage = True
+            ka.run()
             out[n] = (grp, ka)
             for hname, hka in _delegates(m, fi, ka, set(out)):
                 out[n + '->' + hname] = (grp, hka)
+            ka.finish_coverage(getattr(ka, 'delegate_cover', {}))
     for n, (grp, graded) in UTPM_LEVEL.items():
         fi = m.lookup_method('UTPM', n)
         if fi is None:
@@ -503,10 +558,12 @@ def analyse_all(ctx):
         for g in graded:
             if g not in ka.gvars:
                 ka._decl(g, 'in')
+        ka.defer_coverage = True
         ka.run()
         out['UTPM.' + n] = (grp, ka)
         for hname, hka in _delegates(m, fi, ka, set(out)):
             out['UTPM.' + n + '->' + hname] = (grp, hka)
+        ka.finish_coverage(getattr(ka, 'delegate_cover', {}))
     ctx.cache['E2'] = out
     return out
 
@@ -535,6 +592,13 @@ def rule_grade(prop):
             mine = [i for i in ka.issues if i.ob in obs]
             others = [i for i in ka.issues if i.ob not in obs]
             for i in mine:
+                if i.ob == 'O7' and _coverage_exempt(fi, i.witness or {}) is None and (fi.name, (i.witness or {}).get('array')) in COVERAGE_EXEMPT:
+                    i.msg += ' (beyond the accepted exception: D=%s misses %s)' % (i.witness.get('#D'), i.witness.get('missing'))
+                if i.ob == 'O7' and _coverage_exempt(fi, i.witness or {}) is not None:
+                    r.note('%s: coefficient %s of `%s` not stored - accepted: %s' % (fi.qualname, i.witness.get('missing'), i.witness.get('array'),
+                                                                                 _coverage_exempt(fi, i.witness)))
+                    r.ok(construct=fi.fq + ':O7:' + str(i.witness.get('array')))
+                    continue
                 if i.ob == 'O5':
                     verdict, text = _o5_verdict(ctx, ka, i)
                     if verdict == 'ok':
